@@ -642,9 +642,38 @@ func runNotifyRaceCase(c notifyRaceCase) *fail {
 	return nil
 }
 
+// concurrent workloads (the generator of C16, in process) with the lifecycle
+// assertions: whatever the interleaving of clunks, renames, clones, dropped
+// connections and in-flight operations, no File is used after or during its
+// Close, and once every Handle has returned each File was closed exactly once.
+func runLifeWorkload(c isoCase) *fail {
+	f, fs := isoBodyFS(c)
+	if f != nil {
+		if strings.HasPrefix(f.Sig, "iso-") {
+			return nil // result comparisons belong to C16
+		}
+		return f
+	}
+	for _, a := range fs.Anomalies() {
+		if a.Kind == "use-after-close" || a.Kind == "double-close" || a.Kind == "close-during-call" {
+			return failf(a.Sig+":workload", "%s in a concurrent workload: %s %s (%+v)", a.Kind, a.A, a.B, c)
+		}
+	}
+	if n, stack := serverGoroutines(5 * time.Second); n > 0 {
+		return failf("goroutine-left-behind:workload", "%d server goroutine(s) still alive after every connection of the workload had ended: %s (%+v)", n, stack, c)
+	}
+	for _, h := range fs.Handles() {
+		if h.Closes != 1 {
+			return failf(fmt.Sprintf("closed-%d-times-at-teardown:workload", min(h.Closes, 2)), "File h%d (%s) closed %d times after a concurrent workload whose connections have all ended (%+v)", h.ID, h.Path, h.Closes, c)
+		}
+	}
+	return nil
+}
+
 func init() {
 	replayRegistrars = append(replayRegistrars, func() {
 		registerReplay("C05/close-race", runCloseRaceCase)
+		registerReplay("C05/concurrent", runLifeWorkload)
 		registerReplay("C05/notify-race", runNotifyRaceCase)
 		registerReplay("C05/sessions", func(c seqCase) *fail { c.Life = true; return runSeqCase(c, nil) })
 		registerReplay("C05/path-sessions", func(c pathCase) *fail { c.Life = true; return runPathCase(c, nil) })
@@ -699,6 +728,17 @@ func TestC05(t *testing.T) {
 		f := runPathCase(c, st)
 		h.Case(pathHash(c), st.renameOrUnlinkOverHeld > 0, "path-sessions")
 		return f
+	})
+
+	// (a2) concurrent workloads with kept fids, clones, renames and dropped connections
+	rapidCases(h, "concurrent", env.PerShard(env.Pick(240, 16000)), func(rt *rapid.T) isoCase {
+		return isoCase{Seed: rapid.Uint64Range(1, 1<<40).Draw(rt, "seed"), Conns: rapid.IntRange(1, 4).Draw(rt, "conns"),
+			Workers: rapid.IntRange(2, 6).Draw(rt, "workers"), Noise: rapid.IntRange(2, 4).Draw(rt, "noise"),
+			Ops: rapid.IntRange(40, 120).Draw(rt, "ops"), Native: rapid.Bool().Draw(rt, "native"), Perturb: rapid.Bool().Draw(rt, "perturb"),
+			Mix: rapid.IntRange(1, 2).Draw(rt, "mix")}
+	}, func(c isoCase) *fail {
+		h.Case(evid.HashJSON(c), true, "concurrent-workloads")
+		return runLifeWorkload(c)
 	})
 
 	// (b) cut enumeration: every byte offset of generated sessions, with and
